@@ -79,6 +79,9 @@ MUTATIONS = [
             )
         ],
     ),
+    # white-box adversary (notes/adversary/C13_miss1.md, C13_miss2.md): the other direction of the context
+    ("C13", "adv-plain-response-initialises-lost-window", [("@patch", "notes/adversary/C13_miss1.diff", 3)]),
+    ("C13", "adv-echo-error-reuses-request-nonce", [("@patch", "notes/adversary/C13_miss2.diff", 3)]),
     (
         "C13",
         "exhaustion-wraps-around",
@@ -87,6 +90,14 @@ MUTATIONS = [
 ]
 
 CONTROLS = [
+    # safe: a response with a partial IV of its own no longer recovers an unknown window (no progress, no harm)
+    (
+        "C13",
+        "response-piv-does-not-recover-window",
+        [(OS, "                if seqno is not None:\n                    self.recipient_replay_window.initialize_from_freshlyseen(seqno)\n", "                pass\n")],
+    ),
+    # wasteful but safe: no response ever re-uses the request's nonce, each takes a number of the context's own
+    ("C13", "responses-never-reuse-request-nonce", [(OS, "                    can_reuse_nonce=replay_error is None,\n", "                    can_reuse_nonce=False,\n")]),
     # the fast path of C13-seed3 done right: same window state, callback kept
     (
         "C13",
